@@ -21,6 +21,7 @@ type FuncResult struct {
 	Notes    []string
 	Err      string
 	Assumed  bool
+	Callees  []string // verified callee contracts this function's proof relies on
 	entryEnv *Env
 }
 
@@ -45,7 +46,7 @@ func (e *Engine) verifyFunc(key string) (res *FuncResult) {
 		return
 	}
 	x := &Exec{eng: e, fn: fn, c: c, key: calleeShort(key), ordinals: map[*ssa.Function]map[ssa.Instruction]map[string]int{},
-		loopInfo: map[*ssa.Function]*loopTable{}, notes: map[string]bool{}, params: map[string]tv{}}
+		loopInfo: map[*ssa.Function]*loopTable{}, notes: map[string]bool{}, params: map[string]tv{}, used: map[string]bool{}}
 	defer func() {
 		if r := recover(); r != nil {
 			switch ee := r.(type) {
@@ -63,6 +64,10 @@ func (e *Engine) verifyFunc(key string) (res *FuncResult) {
 			res.Notes = append(res.Notes, n)
 		}
 		sort.Strings(res.Notes)
+		for k := range x.used {
+			res.Callees = append(res.Callees, k)
+		}
+		sort.Strings(res.Callees)
 	}()
 
 	curResTypes = x.trackedResultTypes()
